@@ -208,6 +208,77 @@ pub fn run(args: &Args) -> i32 {
     });
     frames::corpus().par_iter().for_each(|c| judge(&rec, c, &all));
 
+    // a frame whose content does not fit 32 bits: 8 byte Frame_Content_Size, 32 769 RLE blocks (131 KB of frame, 4 GiB + 1234 bytes of content)
+    if !small_only {
+        rec.eval();
+        let total: u64 = (1u64 << 32) + 1234;
+        let mut f = vec![0x28, 0xB5, 0x2F, 0xFD, 0xC0, 0x38];
+        f.extend_from_slice(&total.to_le_bytes());
+        let mut left = total;
+        while left > 0 {
+            let n = left.min(128 * 1024) as u32;
+            left -= u64::from(n);
+            let hdr = (n << 3) | (1 << 1) | u32::from(left == 0);
+            f.extend_from_slice(&hdr.to_le_bytes()[..3]);
+            f.push(0x5A);
+        }
+        // the reference implementation reads the same declared size from the header (and, in the thorough tier, decodes the frame)
+        let declared = zstd_safe::get_frame_content_size(&f).ok().flatten();
+        let mut reference_ok = declared == Some(total);
+        if reference_ok && args.thorough() {
+            let mut d = zstd::stream::Decoder::new(&f[..]).unwrap();
+            let mut buf = vec![0u8; 1 << 20];
+            let mut n = 0u64;
+            loop {
+                match std::io::Read::read(&mut d, &mut buf) {
+                    Ok(0) => break,
+                    Ok(k) => n += k as u64,
+                    Err(_) => {
+                        n = 0;
+                        break;
+                    }
+                }
+            }
+            reference_ok = n == total;
+        }
+        if !reference_ok {
+            rec.inconclusive("harness: the reference implementation does not agree with the hand built 4 GiB frame");
+        } else {
+            let res = catch(|| {
+                let mut s = StreamingDecoder::new(&f[..]).map_err(|e| e.to_string())?;
+                let reported = s.decoder.content_size();
+                let mut buf = vec![0u8; 1 << 20];
+                let mut n = 0u64;
+                let mut all_right = true;
+                loop {
+                    match std::io::Read::read(&mut s, &mut buf) {
+                        Ok(0) => break,
+                        Ok(k) => {
+                            n += k as u64;
+                            all_right &= buf[..k].iter().all(|b| *b == 0x5A);
+                        }
+                        Err(e) => return Err(e.to_string()),
+                    }
+                }
+                Ok::<_, String>((reported, n, all_right, s.decoder.bytes_read_from_source()))
+            });
+            let replay = json!({"frame": "hand built: magic, descriptor 0xC0, window descriptor 0x38, FCS 2^32+1234 (8 bytes), RLE blocks of 128 KiB of 0x5A", "origin": "huge frame"});
+            match res {
+                Err(p) => rec.panic_violation(&p, "frame with more than 4 GiB of content", json!({}), replay),
+                Ok(Err(e)) => rec.violation(Sig::new("valid_frame_rejected", "streaming", "frame with more than 4 GiB of content"), json!({"error": e}), replay),
+                Ok(Ok((reported, n, all_right, consumed))) => {
+                    if reported != total {
+                        rec.violation(Sig::new("content_size", "streaming", "fcs_field_len=8 value >= 2^32"), json!({"reported": reported, "declared": total}), replay);
+                    } else if n != total || !all_right || consumed != f.len() as u64 {
+                        rec.violation(Sig::new("wrong_output", "streaming", "frame with more than 4 GiB of content"), json!({"bytes": n, "expected": total, "all_bytes_right": all_right, "consumed": consumed, "frame_len": f.len()}), replay);
+                    } else {
+                        rec.count("frames_with_more_than_4gib_of_content", 1);
+                    }
+                }
+            }
+        }
+    }
+
     // random part
     let n = args.vol(2500, 100_000);
     par_cases(&rec, 1, n, |i, r| {
